@@ -57,6 +57,11 @@ pub enum CelValue {
     )]
     Duration(Duration),
     ByteCode(CelByteCode),
+    // Error values are now encapsulated.
+    Err(CelError),
+    // The variants that are never serialized come last: serde numbers the variants it
+    // deserializes consecutively, so a skipped variant in the middle would shift the index
+    // of every variant after it (bincode could not read back an `Err` constant).
     #[cfg(feature = "protobuf")]
     #[serde(skip_serializing, skip_deserializing)]
     Message(Box<dyn MessageDyn>),
@@ -68,8 +73,6 @@ pub enum CelValue {
     },
     #[serde(skip_serializing, skip_deserializing)]
     Dyn(Arc<dyn CelValueDyn>),
-    // Error values are now encapsulated.
-    Err(CelError),
 }
 
 impl CelValue {
